@@ -25,6 +25,12 @@ CFLAGS = ['-std=gnu11', '-g', '-O1', '-w'] + DEFS + SAN
 CXXFLAGS = ['-std=gnu++17', '-g', '-O1', '-Wall', '-Wno-unused-function', '-Wno-unused-variable'] + SAN
 # plain (no sanitizer) variant for the real-process binaries
 CFLAGS_PLAIN = ['-std=gnu11', '-g', '-O1', '-w'] + DEFS
+# coverage-instrumented variant for the libFuzzer targets
+CFLAGS_FUZZ = CFLAGS + ['-fsanitize=fuzzer-no-link']
+
+
+def _flags(variant):
+    return {'asan': CFLAGS, 'plain': CFLAGS_PLAIN, 'fuzz': CFLAGS_FUZZ}[variant]
 
 NJOBS = int(os.environ.get('VERIF_JOBS', str(os.cpu_count() or 4)))
 
@@ -120,7 +126,7 @@ class Sut:
         prune('sut-' + self.hash)
 
     def lib_objs(self, variant='asan'):
-        flags = CFLAGS if variant == 'asan' else CFLAGS_PLAIN
+        flags = _flags(variant)
         d = os.path.join(self.dir, variant)
         os.makedirs(d, exist_ok=True)
         jobs = []
@@ -134,7 +140,7 @@ class Sut:
 
     def shim_obj(self, name, variant='asan', extra=()):
         """Compile /verif/sut/<name>.c against the current tree."""
-        flags = CFLAGS if variant == 'asan' else CFLAGS_PLAIN
+        flags = _flags(variant)
         d = os.path.join(self.dir, variant)
         os.makedirs(d, exist_ok=True)
         o = os.path.join(d, 'shim_' + name + '.o')
@@ -144,7 +150,7 @@ class Sut:
 
     def program(self, name, variant='plain'):
         """Build one of the repo's own programs (echse, echsx, echsq) from the tree."""
-        flags = CFLAGS if variant == 'asan' else CFLAGS_PLAIN
+        flags = _flags(variant)
         d = os.path.join(self.dir, variant)
         exe = os.path.join(d, name)
         if os.path.exists(exe):
@@ -197,5 +203,23 @@ def link_worker(sut, name, drv_objs, shim_objs, with_lib=True, libs=()):
     objs = list(drv_objs) + list(shim_objs) + (sut.lib_objs('asan') if with_lib else [])
     tmp = exe + '.tmp%d' % os.getpid()
     _run([CXX] + SAN + ['-o', tmp] + objs + ['-lrapidcheck', '-lm', '-lltdl', '-ldl', '-lpthread'] + list(libs))
+    os.replace(tmp, exe)
+    return exe
+
+
+def fuzz_target(sut, src, shims):
+    """Build fuzz/<src> against the coverage-instrumented library of the current tree."""
+    d = os.path.join(sut.dir, 'fuzzbin')
+    os.makedirs(d, exist_ok=True)
+    path = os.path.join(V, 'fuzz', src)
+    hdrs = glob.glob(os.path.join(V, 'fuzz', '*.hpp')) + glob.glob(os.path.join(V, 'sut', '*.h'))
+    tag = _sha([path] + hdrs)
+    exe = os.path.join(d, os.path.splitext(src)[0] + '-' + tag)
+    if os.path.exists(exe):
+        return exe
+    objs = sut.lib_objs('fuzz') + [sut.shim_obj(s, 'fuzz') for s in shims]
+    tmp = exe + '.tmp%d' % os.getpid()
+    _run([CXX, '-std=gnu++17', '-g', '-O1', '-fsanitize=fuzzer,address', '-I' + os.path.join(V, 'sut'), '-I' + os.path.join(V, 'fuzz'),
+          '-o', tmp, path] + objs + ['-lm', '-lltdl', '-ldl'])
     os.replace(tmp, exe)
     return exe
